@@ -254,6 +254,111 @@ pub fn test_context_free(c: &MixCase, ctx: &mut CaseCtx) -> Result<(), String> {
     Ok(())
 }
 
+/// Noun-phrase and other grammatical surroundings in which the tokens around a word are
+/// re-interpreted by the parser (determiner + word + noun, …); the word itself stays one token.
+const PHRASES: &[(&str, &str)] = &[
+    ("The ", " wheel is here."),
+    ("She bought a ", " book."),
+    ("It was my ", " place."),
+    ("This ", " scheme works well."),
+    ("We repainted the ", " wheel"),
+    ("Do you like the ", "?"),
+    ("An ", " of the best kind."),
+    ("a ", " b"),
+];
+
+#[derive(Debug, Clone, Serialize, Deserialize, PartialEq, Eq, Hash)]
+pub struct DialectWord {
+    pub word: String,
+    pub dialect: u8,
+}
+
+/// Whether a word is reported depends on the word, the dictionary and the dialect — not on its
+/// neighbours: every dialect-tagged entry gets the same verdict alone and inside noun phrases.
+pub fn test_dialect_word(c: &DialectWord, ctx: &mut CaseCtx) -> Result<(), String> {
+    let n = c.word.chars().count();
+    let alone = !spell_lints(&c.word, c.dialect).is_empty();
+    ctx.class(if alone { "reported_in_this_dialect" } else { "accepted_in_this_dialect" });
+    ctx.nontrivial(c);
+    for (pre, post) in PHRASES {
+        let text = format!("{pre}{}{post}", c.word);
+        let s = pre.chars().count();
+        let here = spell_lints(&text, c.dialect).iter().any(|l| l.span.start < s + n && s < l.span.end);
+        if here != alone {
+            return Err(format!(
+                "{:?} (dialect {:?}) is {} on its own but {} inside {text:?}",
+                c.word,
+                DIALECTS[c.dialect as usize % 4],
+                if alone { "reported" } else { "accepted" },
+                if here { "reported" } else { "accepted" }
+            ));
+        }
+    }
+    Ok(())
+}
+
+#[derive(Debug, Clone, Serialize, Deserialize, PartialEq, Eq, Hash)]
+pub struct UserWord {
+    /// words of the user's dictionary, in the capitalisation the user chose
+    pub user: Vec<String>,
+    pub dialect: u8,
+    pub frame: (String, String),
+}
+
+/// The active dictionary of every integration is the curated dictionary merged with the user's
+/// words: a user word in its listed capitalisation is never reported, whatever the curated
+/// dictionary holds under the same letters.
+pub fn test_user_word(c: &UserWord, ctx: &mut CaseCtx) -> Result<(), String> {
+    use harper_core::{MergedDictionary, MutableDictionary, WordMetadata};
+    use std::sync::Arc;
+    let mut user = MutableDictionary::new();
+    user.extend_words(c.user.iter().map(|w| (w.chars().collect::<Vec<char>>(), WordMetadata::default())));
+    let mut m = MergedDictionary::new();
+    m.add_dictionary(FstDictionary::curated());
+    m.add_dictionary(Arc::new(user));
+    let m = Arc::new(m);
+    let mut group = LintGroup::new_curated(m.clone(), DIALECTS[c.dialect as usize % 4]);
+    group.config = crate::generators::ConfigSpec::only(&["SpellCheck"]).build();
+    let curated = FstDictionary::curated();
+    for w in &c.user {
+        let text = format!("{}{w}{}", c.frame.0, c.frame.1);
+        let s = c.frame.0.chars().count();
+        let n = w.chars().count();
+        let doc = Document::new(&text, &PlainEnglish, &m);
+        let hit = group.lint(&doc).into_iter().find(|l| l.lint_kind == LintKind::Spelling && l.span.start < s + n && s < l.span.end);
+        use harper_core::Dictionary;
+        let cs: Vec<char> = w.chars().collect();
+        if curated.contains_word(&cs) && !curated.contains_exact_word(&cs) {
+            ctx.class("recapitalised_curated_entry");
+            ctx.nontrivial(c);
+        }
+        if let Some(l) = hit {
+            return Err(format!(
+                "the user dictionary lists {w:?} (all user words: {:?}) yet it is reported in {text:?}: {}",
+                c.user, l.message
+            ));
+        }
+    }
+    Ok(())
+}
+
+fn user_word_strategy() -> BoxedStrategy<UserWord> {
+    let recased = (g::dict_word(), 0u8..4).prop_map(|(w, m)| match m {
+        0 | 1 => w.to_lowercase(),
+        2 => w.to_uppercase(),
+        _ => w.chars().enumerate().map(|(i, c)| if i == 1 { c.to_uppercase().next().unwrap_or(c) } else { c }).collect(),
+    });
+    let word = prop_oneof![
+        4 => recased,
+        2 => g::sel_str(&["markdown", "github", "javascript", "linux", "paris", "KUBERNETES", "iphone", "MONDAY", "nasa"]),
+        2 => g::near_word(),
+    ]
+    .prop_filter("single alphabetic token", |w| !w.is_empty() && w.chars().all(|c| c.is_alphabetic()));
+    (proptest::collection::vec(word, 1..4), 0u8..4, frame())
+        .prop_map(|(user, dialect, frame)| UserWord { user, dialect, frame })
+        .boxed()
+}
+
 const FRAMES: &[(&str, &str)] = &[
     ("The ", " is here."),
     ("We saw a ", " today"),
@@ -271,7 +376,7 @@ fn frame() -> BoxedStrategy<(String, String)> {
 }
 
 pub fn run(run: &mut Run) {
-    run.rule = "(->) exhaustive: every entry of the curated dictionary (words_iter) x 4 dialects alone as a document, lower-case entries also Capitalised and UPPER; random: entries at positions inside 7 sentence frames. Ground truth is the dictionary's own word list and metadata. (<-) ASCII-letter strings the dictionary does not contain under any capitalisation (random strings and one-edit neighbours of dictionary words, by construction then a membership test) alone and in frames: exactly one Spelling lint with exactly the word's span, every suggestion a dictionary word of the active dialect. Non-trivial (->) = affix-derived, dialect-tagged, non-ASCII or apostrophe entry; (<-) = edit distance 1 from a real word.".into();
+    run.rule = "(->) exhaustive: every entry of the curated dictionary (words_iter) x 4 dialects alone as a document, lower-case entries also Capitalised and UPPER; random: entries at positions inside 7 sentence frames. Ground truth is the dictionary's own word list and metadata. dialect_entries_in_noun_phrases: every single-token entry that carries a dialect tag x 4 dialects (exhaustive) alone and inside 8 noun-phrase frames (determiner + word + noun, ...): the verdict must not depend on the neighbours. user_dictionary_entries: the curated dictionary merged with 1-3 user words (re-capitalised curated entries, non-words): a user word in its listed capitalisation is never reported. (<-) ASCII-letter strings the dictionary does not contain under any capitalisation (random strings and one-edit neighbours of dictionary words, by construction then a membership test) alone and in frames: exactly one Spelling lint with exactly the word's span, every suggestion a dictionary word of the active dialect. Non-trivial (->) = affix-derived, dialect-tagged, non-ASCII or apostrophe entry; (<-) = edit distance 1 from a real word.".into();
     let h = g::harvest();
     if !run.strict && run.known.get(KF_MULTI).is_some() {
         let w = WordCase { word: "Wi-Fi's".into(), dialect: 0, form: 0, prefix: String::new(), postfix: String::new() };
@@ -309,6 +414,28 @@ pub fn run(run: &mut Run) {
             if quick { "in 1 of 4 dialects" } else { "in all dialects" }
         ));
     }
+    // every entry that carries a dialect tag (single-token ones), in all four dialects
+    {
+        let dict = FstDictionary::curated();
+        let mut cases = vec![];
+        for w in &h.dict_words {
+            if !w.chars().all(|c| c.is_alphabetic()) {
+                continue;
+            }
+            let tagged = dict.get_word_metadata_str(w).is_some_and(|m| m.dialect.is_some());
+            if tagged {
+                for dialect in 0..4u8 {
+                    cases.push(DialectWord { word: w.clone(), dialect });
+                }
+            }
+        }
+        run.enumerate("dialect_entries_in_noun_phrases", &cases, true, test_dialect_word);
+        run.require_class("dialect_entries_in_noun_phrases", "reported_in_this_dialect", 1000);
+        run.require_class("dialect_entries_in_noun_phrases", "accepted_in_this_dialect", 300);
+    }
+    let n = run.n(4_000, 200_000);
+    run.prop("user_dictionary_entries", n, user_word_strategy, test_user_word);
+    run.require_class("user_dictionary_entries", "recapitalised_curated_entry", (n / 10) as u64);
     let n = run.n(40_000, 1_000_000);
     run.prop(
         "entry_in_sentence",
@@ -418,7 +545,13 @@ pub fn run(run: &mut Run) {
 
 pub fn replay(check: &str, case: Value, run: &mut Run) -> Result<(), String> {
     let mut ctx = CaseCtx::default();
-    let r = if check == "verdict_is_context_free" {
+    let r = if check == "user_dictionary_entries" {
+        let c: UserWord = serde_json::from_value(case).map_err(|e| e.to_string())?;
+        test_user_word(&c, &mut ctx)
+    } else if check == "dialect_entries_in_noun_phrases" {
+        let c: DialectWord = serde_json::from_value(case).map_err(|e| e.to_string())?;
+        test_dialect_word(&c, &mut ctx)
+    } else if check == "verdict_is_context_free" {
         let c: MixCase = serde_json::from_value(case).map_err(|e| e.to_string())?;
         test_context_free(&c, &mut ctx)
     } else if check == "non_words_are_reported" {
